@@ -152,6 +152,16 @@ theorem rangeInv_step (cfg : Cfg) (st : St) (op : Op) (h : RangeInv st) : RangeI
         exact rangeInv_foldPatch cfg m _ _ (fun r hr => h1 r hr)
       split <;> exact h3
   | shiftMatch q => exact rangeInv_foldDel _ _ (rangeInv_stepBuild cfg st q h)
+  | shiftKeys ks => exact rangeInv_foldDel ks st h
+  | patchCreate k m =>
+    simp only [step, stepPatchCreate]
+    split
+    · exact rangeInv_stepSet cfg st _ h
+    · split
+      · exact rangeInv_stepSet cfg st _ h
+      · split
+        · exact rangeInv_stepSet cfg st _ h
+        · exact h
 
 theorem rangeInv_run (cfg : Cfg) (h : List Op) : RangeInv (run cfg h) := by
   unfold run
